@@ -1,7 +1,7 @@
 CONSTANTS
-  Good <- MCGood
-  Bad <- MCBad
-  MaxOps = 5
+  Good <- MCGoodSix
+  Bad <- MCBadSix
+  MaxOps = 6
 INIT Init
 NEXT Next
 INVARIANTS BatchEq Idempotent NamesUnique Export
